@@ -10,7 +10,14 @@ LUA_PAGES = ["{{#invoke:counter|main}}", "{{#invoke:glob|main}} {{#invoke:glob|m
              "{{#invoke:uselib|main}}{{#invoke:uselib|main}}", "{{#invoke:usedata|main}}", "{{#invoke:args|main|q}}",
              "{{#invoke:osdate|main}}", "{{#invoke:mathlib|main}}", "{{#invoke:pkg|main}}", "{{cnt}}",
              "{{#invoke:bad|main}} then {{#invoke:counter|main}}", "{{#invoke:echo|main|a|b=c}}", "{{#invoke:pp|main|k}}",
-             "{{#invoke:nesta|main}}", "{{#invoke:nesta2|main}}", "{{#invoke:probe2|main}}", "{{#invoke:probe2|main}} {{#invoke:nesta|main}}"]
+             "{{#invoke:nesta|main}}", "{{#invoke:nesta2|main}}", "{{#invoke:probe2|main}}", "{{#invoke:probe2|main}} {{#invoke:nesta|main}}",
+             # invocations that fail at different points, followed by invocations that must still be isolated from one another
+             "{{#invoke:echo|nofn}} {{#invoke:counter|main}} {{#invoke:counter|main}}",
+             "{{#invoke:nomodule|main}} {{#invoke:glob|main}} {{#invoke:glob|main}}",
+             "{{#invoke:bad|main}} {{#invoke:counter|main}} {{#invoke:strlib|main}} {{#invoke:counter|main}} {{#invoke:strlib|main}}",
+             "{{#invoke:boom|main}} {{#invoke:tbllib|main}} {{#invoke:tbllib|main}} {{#invoke:counter|main}}{{#invoke:counter|main}}",
+             "{{#invoke:boomload|main}} {{#invoke:glob|main}} {{#invoke:counter|main}} {{#invoke:counter|main}}",
+             "{{#invoke:counter|main}} {{#invoke:echo}} {{#invoke:counter|main}} {{#invoke:mathlib|main}} {{#invoke:mathlib|main}}"]
 TPL_PAGES = ["{{a|x}} {{b|p|x=q}}", "{{deep|w}} {{missing|y}}", "{{loop}} after", "{{m1}}", "<nowiki>{{a}}</nowiki> {{a|<nowiki>n</nowiki>}}",
              "{{#if:x|{{a|1}}|{{a|2}}}}", "== H ==\n* {{a|i}}\n{{list}}", "<foo>x</foo> <b>y</b>", "{{{1|d}}} [[l|{{a|z}}]]",
              "{{inv|q}}", "{{#expr: 1 +}} {{#expr:2*3}}", "{|\n| {{a|c}}\n|}", "''x'' '''y''' <ref>r</ref>"]
@@ -33,6 +40,27 @@ def gen_pages(rng, n):
         steps = [rng.choice(OPTS) for _ in range(rng.randint(1, 2))]
         pages.append({"title": rng.choice(["P%d" % i, "Talk:P%d" % i]), "text": text, "steps": steps})
     return pages
+
+
+LETTERS = {"n": "counter", "g": "glob", "s": "strlib", "t": "tbllib", "w": "mwlib", "x": "mwtext", "o": "osdate", "h": "mathlib"}
+
+
+def isolation_oracle(run, got, page, case):
+    """Every invocation of one of the counting modules starts from pristine state, so it can only ever print 1 — also for
+    the second invocation on the same page, and whatever happened (failed invocations included) before it."""
+    import re as _re
+    seen = set()
+    src = page["text"]
+    invoked = {l for l, m in LETTERS.items() if "#invoke:%s|" % m in src} | ({"n"} if "{{cnt}}" in src else set())
+    literal = {l for l, v in _re.findall(r"\b([ngstwxoh])=(\d+)", src)}
+    for text in got.get("expand", []):
+        for letter, val in _re.findall(r"\b([ngstwxoh])=(\d+)", text):
+            if val != "1" and letter in invoked and letter not in literal:
+                seen.add(letter)
+    if seen:
+        run.property_failure("+".join("c09:lua-state-persists:%s" % LETTERS[l] for l in sorted(seen, key=lambda l: LETTERS[l])),
+                             "page %r printed %s: an invocation saw state left by an earlier invocation"
+                             % (page["text"][:100], json.dumps(got.get("expand"))[:300]), case)
 
 
 def run(run):
@@ -82,6 +110,7 @@ def run(run):
             r = res_base[kb]; kb += 1
             if r.get("outcome") == "ok":
                 ref[c["history"][0]] = r["results"][0]
+                isolation_oracle(run, r["results"][0], pages[c["history"][0]], c)
         for c in hs:
             r = res_hist[kh]; kh += 1
             lua = any("#invoke" in pages[i]["text"] or "{{cnt}}" in pages[i]["text"] for i in c["history"])
@@ -91,6 +120,7 @@ def run(run):
                 run.property_failure("c09:%s:%s" % (r.get("outcome"), r.get("exc", "")), "history run failed: %r" % (r,), c)
                 continue
             for pos, (i, got) in enumerate(zip(c["history"], r["results"])):
+                isolation_oracle(run, got, pages[i], c)
                 want = ref.get(i)
                 if want is None or got == want:
                     continue
